@@ -64,6 +64,8 @@ def dasl(cpu, mem, via='bin', entries=None):
             a = lo + off
             rec = bytes([len(ch), a >> 8 & 0xff, a & 0xff, 0]) + ch
             lines.append(':' + rec.hex().upper() + '%02X' % ((-sum(rec)) & 0xff))
+        if via == 'hexrev':
+            lines.reverse()          # records need not come in ascending address order (a later ORG block below an earlier one)
         lines.append(':00000001FF')
         core.put('i.hex', '\n'.join(lines) + '\n')
         args += ['-hexfile', 'i.hex']
@@ -150,6 +152,10 @@ def programs(tier):
                  'targ:\tnop\n\tjr z,targ\n\tret\n', '\tjr nz,targ\n\tnop\ntarg:\tret\n', '\tld a,(40h)\n\tret\n\tdb 1,2\n',
                  'targ:' + '\tnop\n' * 126 + '\tjr z,targ\n\tret\n', '\tjr z,targ\n' + '\tnop\n' * 127 + 'targ:\tret\n'):
         yield {'k': 'prog', 'cpu': '87C00', 'src': '\torg 256\n' + body, 'tag': body.replace('\n', ' / ').replace('\t', ' ')}
+    # 87C00 register-relative operands at both ends of the signed displacement byte
+    for d in (-128, -127, -1, 0, 1, 126, 127):
+        for form in ('ld a,(hl%+d)', 'inc (hl%+d)', 'ld (hl%+d),a', 'ld a,(ix%+d)', 'ld (iy%+d),a', 'dec (ix%+d)', 'ld a,(sp%+d)', 'cmp a,(hl%+d)', 'ld wa,(ix%+d)'):
+            yield {'k': 'prog', 'cpu': '87C00', 'src': '\torg 256\n\t%s\n\tret\n%s' % (form % d, '\tnop\n' * 18), 'tag': form % d}
     for kind in ('jun', 'jms'):
         for tgt in (0x104, 0x1ff, 0x200):
             yield {'k': 'prog', 'cpu': '4004', 'src': '\torg 256\n\t%s t\n\tnop\n\torg %d\nt:\tnop\n\tbbl 0\n' % (kind, tgt), 'tag': '%s -> %x' % (kind, tgt)}
@@ -204,5 +210,9 @@ def evaluate(case):
     if not r2['ok']:
         r2['sig'] += '/hexfile'
         return r2
-    r['transitions'] = 6
+    r3 = roundtrip(cpu, Y, case['tag'] + ' via hex, records in descending order', 'hexrev', case.get('entries'))
+    if not r3['ok']:
+        r3['sig'] += '/hexfile-descending-records'
+        return r3
+    r['transitions'] = 9
     return r
